@@ -7,6 +7,7 @@
 #pragma once
 #include <arpa/inet.h>
 #include <stdint.h>
+#include <stdlib.h>
 #include <string.h>
 #include <string>
 #include <vector>
@@ -50,7 +51,7 @@ static inline Verdict parse_ip_port(const std::string &s, Addr *out, bool *port_
     size_t e = s.find(']'); if (e == std::string::npos) return INVALID;
     Verdict v = parse_ip(s.substr(1, e - 1), AF_INET6, &r); if (v == INVALID) return INVALID;
     std::string rest = s.substr(e + 1);
-    if (!rest.empty()) { if (rest[0] != ':') return UNSPEC /* "[::1]junk": formats list nothing after ']' but ':port' */; if (!parse_port(rest.substr(1), &r.port)) return INVALID; *port_given = true; }
+    if (!rest.empty()) { if (rest[0] != ':') { *out = r; return UNSPEC; } /* "[::1]junk": formats list nothing after ']' but ':port' */ if (!parse_port(rest.substr(1), &r.port)) return INVALID; *port_given = true; }
     *out = r; return v;
   }
   size_t c1 = s.find(':');
@@ -62,13 +63,28 @@ static inline Verdict parse_ip_port(const std::string &s, Addr *out, bool *port_
   Verdict v = parse_ip(s, AF_INET, &r); if (v != INVALID) *out = r; return v;
 }
 
+// a refused "v4:port" / "[v6]:port" token whose address is fine and whose port part an atoi()-style parser would read as 1..65535
+static inline bool lenient_port(const std::string &s, Addr *out) {
+  Addr r; std::string pp;
+  if (!s.empty() && s[0] == '[') { size_t e = s.find(']'); if (e == std::string::npos || e + 1 >= s.size() || s[e + 1] != ':') return false; if (parse_ip(s.substr(1, e - 1), AF_INET6, &r) == INVALID) return false; pp = s.substr(e + 2); }
+  else { size_t c1 = s.find(':'); if (c1 == std::string::npos || s.find(':', c1 + 1) != std::string::npos) { if (c1 == std::string::npos) return false; /* "a.b.c.d:53:" */ if (parse_ip(s.substr(0, c1), AF_INET, &r) == INVALID) return false; pp = s.substr(c1 + 1); }
+    else { if (parse_ip(s.substr(0, c1), AF_INET, &r) == INVALID) return false; pp = s.substr(c1 + 1); } }
+  if (pp.find('\0') != std::string::npos) return false;
+  int v = (int)strtol(pp.c_str(), nullptr, 10); if (v < 1 || v > 65535) return false;
+  r.port = (uint16_t)v; *out = r; return true;
+}
+
 // ---- numbers -----------------------------------------------------------------------------------------------
 // "n": decimal digits (resolv.conf(5) "ndots:n"); an optional '-' is read as a negative number where the option
 // documents clipping.  big = does not fit an int (the oracle accepts "rejected" or "clipped to the upper bound").
 struct Num { Verdict v = INVALID; bool big = false; bool neg = false; long val = 0; };
 static inline Num parse_int(const std::string &s) {
   Num n; std::string d = s; if (!d.empty() && d[0] == '-') { n.neg = true; d.erase(0, 1); }
-  if (!all_digits(d)) return n;
+  if (!all_digits(d)) {
+    // other spellings the C library's number syntax allows ("+3", " 3"): the documents do not say -> UNSPEC
+    if (!s.empty() && s.find('\0') == std::string::npos) { char *e; (void)strtol(s.c_str(), &e, 10); if (e != s.c_str() && !*e) n.v = UNSPEC; }
+    return n;
+  }
   size_t nz = 0; while (nz + 1 < d.size() && d[nz] == '0') nz++; d.erase(0, nz);
   n.v = VALID;
   if (d.size() > 10) { n.big = true; n.val = 0x7fffffffL; } else { long long v = atoll(d.c_str()); if (v > 0x7fffffffLL) { n.big = true; n.val = 0x7fffffffL; } else n.val = (long)v; }
@@ -80,7 +96,11 @@ struct Dur { Verdict v = INVALID; bool big = false; int64_t us = 0; };
 static inline Dur parse_seconds(const std::string &s) {
   Dur r; size_t dot = s.find('.'); std::string ip = s.substr(0, dot), fp = dot == std::string::npos ? "" : s.substr(dot + 1);
   if (ip.empty() && fp.empty()) return r;
-  if (!ip.empty() && !all_digits(ip)) return r; if (!fp.empty() && !all_digits(fp)) return r;
+  if ((!ip.empty() && !all_digits(ip)) || (!fp.empty() && !all_digits(fp))) {
+    // exponents, hex floats, "inf", signs ...: C number syntax the documents do not mention -> UNSPEC (negative values are refused)
+    if (s.find('\0') == std::string::npos) { char *e; double d = strtod(s.c_str(), &e); if (e != s.c_str() && !*e && !(d < 0)) r.v = UNSPEC; }
+    return r;
+  }
   if (dot != std::string::npos && (ip.empty() || fp.empty())) { r.v = UNSPEC; }   // "5." / ".5": strtod forms, undocumented
   size_t nz = 0; while (nz + 1 < ip.size() && ip[nz] == '0') nz++; ip.erase(0, nz);
   if (ip.size() > 9) { r.v = r.v == UNSPEC ? UNSPEC : VALID; r.big = true; return r; }
@@ -97,7 +117,7 @@ struct NsEntry { Addr addr; bool optional = false; };      // optional: the docu
 struct HostEntry { Addr addr; std::string name; bool optional = false; };
 // an integer setting: v = reference value; unspec = the documents do not decide it; big = the last value written did
 // not fit an int: "rejected" (alt = the value before) and "clipped to the upper bound" (v) are both acceptable
-struct IntField { int v = 0; bool unspec = false, big = false; int alt = 0; IntField(int d = 0) : v(d) {}
+struct IntField { int v = 0; bool unspec = false, big = false; int alt = 0; bool met_empty = false, met_big = false; IntField(int d = 0) : v(d) {}
   bool accepts(long x) const { return unspec || x == v || (big && x == alt); } };
 struct Config {
   std::vector<NsEntry> ns;                 // in configuration order, duplicates (same address+port) dropped
@@ -110,15 +130,27 @@ struct Config {
   bool bind_set = false; Addr bind_to; bool bind_unspec = false;
   std::vector<HostEntry> hosts;
   std::string hostname;                    // gethostname(), for the "search list from the host name" default
+  // bookkeeping for the harness: inputs outside the documented syntax that were met (and, when tol_* is set, treated as
+  // undecided instead of refused -- used to search on behind a known finding)
+  bool tol_empty = false, tol_wrap = false, tol_port = false, tol_ndots_reset = false;
+  int n_ndots_hazard = 0;                  // the search list was replaced while ndots had a non-default value (see search_replaced)
+  int n_empty_int = 0, n_big_int = 0, n_port_junk = 0, n_big_dur = 0;
+  std::vector<Addr> junk_ns;               // what an atoi()-style port parser would make of refused "addr:port" tokens
 };
 
 static inline void ns_add(Config &c, const Addr &a, bool optional) {
-  for (auto &e : c.ns) if (e.addr == a) return;        // "Duplicate nameserver" is not added twice
+  for (auto &e : c.ns) if (e.addr == a) { if (!optional) e.optional = false; return; }        // "Duplicate nameserver" is not added twice
   NsEntry e; e.addr = a; e.optional = optional; c.ns.push_back(e);
+}
+// Replacing the search list leaves "ndots" alone (resolv.conf(5): independent settings; dns.h evdns_base_search_clear:
+// "Clear the list of search domains").  The hazard counter lets the harness attribute a disagreement.
+static inline void search_replaced(Config &c) {
+  if (c.ndots.v != 1 || c.ndots.big || c.ndots.unspec || c.ndots.met_empty) { c.n_ndots_hazard++; if (c.tol_ndots_reset) c.ndots.unspec = true; }
+  c.search.clear();
 }
 static inline std::string strip_dots(std::string d) { while (!d.empty() && d[0] == '.') d.erase(0, 1); return d; }
 static inline void search_from_hostname(Config &c) {
-  c.search.clear(); size_t p = c.hostname.find('.'); if (p == std::string::npos) return;
+  search_replaced(c); size_t p = c.hostname.find('.'); if (p == std::string::npos) return;
   c.search.push_back(strip_dots(c.hostname.substr(p)));
 }
 
@@ -137,21 +169,26 @@ static inline int set_option(Config &c, const std::string &name, const std::stri
   *unspec_ret = false;
   auto intopt = [&](int group, long lo, long hi, bool clipped, IntField *f) -> int {
     Num n = parse_int(val);
+    if (val.empty()) { c.n_empty_int++; if (flags & group) f->met_empty = true; if (c.tol_empty) { *unspec_ret = true; if (flags & group) f->unspec = true; return 0; } return -1; }
     if (n.v == INVALID) return -1;
+    if (n.v == UNSPEC) { *unspec_ret = true; if (flags & group) f->unspec = true; return 0; }
     if (n.neg && (!clipped || n.val == -1)) { *unspec_ret = true; if (flags & group) f->unspec = true; return 0; }   // negative where no lower bound is documented; "-1" (code-derived corner)
-    if (n.big) { *unspec_ret = true; if (flags & group) { if (!f->big) f->alt = f->v; f->big = true; f->v = (int)hi; } return 0; }   // rejected or saturated: both acceptable
+    if (n.big && !n.neg && (flags & group)) f->met_big = true;
+    if (n.big && (n.neg || c.tol_wrap)) { if (!n.neg) c.n_big_int++; *unspec_ret = true; if (flags & group) f->unspec = true; return 0; }
+    if (n.big) { c.n_big_int++; *unspec_ret = true; if (flags & group) { if (!f->big) f->alt = f->v; f->big = true; f->v = (int)hi; } return 0; }   // rejected or saturated: both acceptable
     if (!(flags & group)) return 0;
-    f->v = (int)clip(n.val, lo, hi); f->unspec = false; f->big = false; return 0;
+    f->v = (int)clip(n.val, lo, hi); f->unspec = false; f->big = false; f->met_empty = f->met_big = false; return 0;
   };
   auto duropt = [&](int group, int64_t *field, bool *field_unspec) -> int {
     Dur d = parse_seconds(val);
+    if (d.big) c.n_big_dur++;
     if (d.v == INVALID) return -1;
     if (d.v == UNSPEC || d.big) { *unspec_ret = true; if (flags & group) *field_unspec = true; return 0; }
     if (!(flags & group)) return 0;
     *field = d.us; *field_unspec = false; return 0;
   };
   int64_t dummy64 = 0; bool dummyu = false;
-  if (name == "ndots") return intopt(F_SEARCH, 0, 0x7fffffffL, false, &c.ndots);
+  if (name == "ndots") { int r = intopt(F_SEARCH, 0, 0x7fffffffL, false, &c.ndots); if (!c.ndots.unspec && !c.ndots.big && !c.ndots.met_empty && !c.ndots.met_big && r == 0 && !*unspec_ret && (flags & F_SEARCH)) c.n_ndots_hazard = 0; return r; }
   if (name == "timeout") return duropt(F_MISC, &c.timeout_us, &c.timeout_unspec);
   if (name == "getaddrinfo-allow-skew") return duropt(F_MISC, &c.skew_us, &c.skew_unspec);
   if (name == "max-timeouts") return intopt(F_MISC, 1, 255, true, &c.max_timeouts);
@@ -198,7 +235,10 @@ static inline void resolv_line(Config &c, const std::string &line, int flags) {
   if (t[0] == "nameserver" && (flags & F_NAMESERVERS)) {
     if (t.size() < 2) return;
     Addr a; bool pg; Verdict v = parse_ip_port(t[1], &a, &pg);
-    if (v == INVALID) return;
+    if (v == INVALID) {
+      if (lenient_port(t[1], &a)) { c.n_port_junk++; if (c.tol_port) ns_add(c, a, true); else c.junk_ns.push_back(a); }
+      return;
+    }
     if (!pg) a.port = 53;
     bool optional = v == UNSPEC;
     // bind-to applies to the nameservers configured after it (non-loopback ones): whether the local bind works is the OS's business
@@ -206,9 +246,9 @@ static inline void resolv_line(Config &c, const std::string &line, int flags) {
     ns_add(c, a, optional);
   } else if (t[0] == "domain" && (flags & F_SEARCH)) {
     if (t.size() < 2) return;
-    c.search.clear(); c.search.push_back(strip_dots(t[1]));
+    search_replaced(c); c.search.push_back(strip_dots(t[1]));
   } else if (t[0] == "search" && (flags & F_SEARCH)) {
-    c.search.clear(); for (size_t i = 1; i < t.size(); i++) c.search.push_back(strip_dots(t[i]));
+    search_replaced(c); for (size_t i = 1; i < t.size(); i++) c.search.push_back(strip_dots(t[i]));
   } else if (t[0] == "options") {
     for (size_t i = 1; i < t.size(); i++) {
       size_t colon = t[i].find(':'); std::string name = t[i].substr(0, colon), val = colon == std::string::npos ? "" : t[i].substr(colon + 1);
@@ -273,9 +313,9 @@ static inline int count_dots(const std::string &s) { int n = 0; for (char ch : s
 static inline std::vector<std::string> search_candidates(const Config &c, const std::string &name) {
   std::vector<std::string> cand;
   if (c.search.empty()) { cand.push_back(name); return cand; }
-  if (count_dots(name) >= c.ndots) cand.push_back(name);
+  if (count_dots(name) >= c.ndots.v) cand.push_back(name);
   for (auto &d : c.search) cand.push_back(name + (!name.empty() && name.back() == '.' ? "" : ".") + d);
-  if (count_dots(name) < c.ndots) cand.push_back(name);
+  if (count_dots(name) < c.ndots.v) cand.push_back(name);
   return cand;
 }
 }  // namespace rcref
